@@ -292,6 +292,9 @@ func (e *Enc) applyContractFV(fr *Frame, ct *Contract, key string, sig *types.Si
 		for _, ca := range fr.contract.Asserts {
 			if ca.Kind == "call" && ca.N == n && strings.HasSuffix(short, sanitize(ca.Callee)) {
 				henv := e.hostEnv(fr)
+				for i, a := range args {
+					henv.vars[fmt.Sprintf("callarg%d", i)] = a
+				}
 				f, watch := e.evalBoolWatch(henv, ca.Clause.Expr, st, fr.entry, ca.Clause)
 				o := e.ob(fr, "assert", fmt.Sprintf("assert@%s#%d", ca.Callee, n), rb, f, ca.Clause.Src, sitePos(site))
 				o.Watch = append(append(e.paramWatch(fr.top), watch...), e.contractWatch(fr, st, fr.top.entry)...)
@@ -321,6 +324,13 @@ func (e *Enc) applyContractFV(fr *Frame, ct *Contract, key string, sig *types.Si
 	}
 	for _, en := range ct.Ensures {
 		f := e.evalBoolEnv(env, en.Expr, post, st, en)
+		if e.evalFailed {
+			if en.Trusted {
+				// a trusted spec that does not evaluate is a broken spec file, not a property violation
+				e.w.contractErrors = append(e.w.contractErrors, e.evalErrs[len(e.evalErrs)-1])
+			}
+			continue
+		}
 		e.sc.Assert(implies(rb, f))
 	}
 	return res, post, rb
